@@ -80,7 +80,8 @@ func init() {
 	h.Register(&h.Check{
 		ID:          "C07",
 		Rule:        "complete product format x length-bytes x declared length x bytes present x nesting depth x enclosing declared count; honest inputs of 2^k bytes for every format; all texts up to k bytes over byte / 24-symbol alphabets behind a valid header; each decoded by the real decoder in an rlimited worker, oracle = normal return and heap allocation delta <= 64 KiB + 2048 B per input byte; non-trivial = input decoded and measured",
-		Assumptions: []string{"allocation constants are measured, not derived: worst honest input (lists of empty items) allocates about 530 B per input byte on this tree"},
+		Assumptions: []string{"allocation constants are measured, not derived: worst honest input (lists of empty items) allocates about 530 B per input byte on this tree",
+			"the heap allocation counter does not include goroutine stack; stack exhaustion shows as a dead worker (process abort), which is a violation of its own"},
 		WatchdogSec: 120,
 		Build: func(tier string, seed int64) []h.Space {
 			var sp []h.Space
@@ -231,6 +232,102 @@ func init() {
 					text = append(text, 0xA5, 0x01, 0x07)
 					out := decodeMeasured(c, "deep", hdr(1, 1, text), func() string { return fmt.Sprintf("%d nested lists", d) })
 					c.Case(0, true, out)
+				}})
+			// depth x width: d nested lists around w leaves. The cost of building a list must not depend on how many
+			// lists enclose it (a constructor that walks the whole subtree at every level costs depth x width).
+			dws := []int{0, 1, 16, 256, 1024}
+			wws := []int{0, 1, 16, 256, 4096}
+			if tier == "thorough" {
+				dws = append(dws, 4096)
+				wws = append(wws, 32768)
+			}
+			leafKinds := []ref.Kind{}
+			for _, k := range ref.Kinds {
+				if k != ref.L {
+					leafKinds = append(leafKinds, k)
+				}
+			}
+			nShapes := 4
+			dwDesc := func(i uint64) string {
+				d := unrank(i, len(dws), len(wws), len(leafKinds), nShapes)
+				return fmt.Sprintf("%d nested lists, %d %s leaves, %s", dws[d[0]], wws[d[1]], leafKinds[d[2]],
+					[]string{"empty leaves in the innermost list", "one-element leaves in the innermost list", "leaves spread over the levels (comb)", "leaves in the outermost list after the nested lists"}[d[3]])
+			}
+			sp = append(sp, h.Space{Name: "nesting-depth-x-width", Count: product(len(dws), len(wws), len(leafKinds), nShapes), ChunkHint: 4,
+				Describe: func(i uint64) interface{} { return dwDesc(i) },
+				Run: func(c *h.Ctx, i uint64) {
+					d := unrank(i, len(dws), len(wws), len(leafKinds), nShapes)
+					depth, width, k, shape := dws[d[0]], wws[d[1]], leafKinds[d[2]], d[3]
+					leaf := func() []byte {
+						if shape == 1 {
+							l := ref.ItemHeader(k, k.Width(), 0)
+							for j := 0; j < k.Width(); j++ {
+								l = append(l, 0x3f)
+							}
+							return l
+						}
+						return ref.ItemHeader(k, 0, 0)
+					}()
+					var text []byte
+					switch shape {
+					case 0, 1: // L[1] ... L[1] L[w] leaf*w
+						for j := 0; j < depth; j++ {
+							text = append(text, 0x01, 0x01)
+						}
+						text = append(text, ref.ItemHeader(ref.L, width, 0)...)
+						for j := 0; j < width; j++ {
+							text = append(text, leaf...)
+						}
+					case 2: // every level: L[per+1] leaf*per <next level>; innermost L[0]
+						per := 0
+						if depth > 0 {
+							per = (width + depth - 1) / depth
+						}
+						for j := 0; j < depth; j++ {
+							text = append(text, ref.ItemHeader(ref.L, per+1, 0)...)
+							for q := 0; q < per; q++ {
+								text = append(text, leaf...)
+							}
+						}
+						text = append(text, 0x01, 0x00)
+					case 3: // L[w+1] (L[1]...L[0]) leaf*w
+						text = append(text, ref.ItemHeader(ref.L, width+1, 0)...)
+						for j := 0; j < depth; j++ {
+							text = append(text, 0x01, 0x01)
+						}
+						text = append(text, 0x01, 0x00)
+						for j := 0; j < width; j++ {
+							text = append(text, leaf...)
+						}
+					}
+					x := hdr(1, 1, text)
+					out := decodeMeasured(c, "depth-x-width", x, func() string { return dwDesc(i) + fmt.Sprintf(" (%d input bytes)", len(x)) })
+					if out == "refused" {
+						c.Fail("honest-input-refused", dwDesc(i), "refused")
+					}
+					c.Case(0, true, out)
+				}})
+			// nothing but list headers: the decoder descends one level per header before it can know that the input
+			// ends; it must come back with a verdict, whatever the depth (a goroutine stack is not unbounded)
+			hk := 23
+			if tier == "thorough" {
+				hk = 26
+			}
+			sp = append(sp, h.Space{Name: "nothing-but-list-headers", Count: uint64(3 * (hk - 7)), ChunkHint: 1,
+				Describe: func(i uint64) interface{} {
+					return fmt.Sprintf("2^%d bytes of list headers with %d length byte(s), each declaring one child", 8+i/3, 1+i%3)
+				},
+				Run: func(c *h.Ctx, i uint64) {
+					n, nl := 1<<(8+i/3), int(1+i%3)
+					one := ref.ItemHeader(ref.L, 1, nl)
+					text := make([]byte, 0, n)
+					for len(text)+len(one) <= n {
+						text = append(text, one...)
+					}
+					x := hdr(1, 1, text)
+					c.Case(0, true, decodeMeasured(c, "list-headers-only", x, func() string {
+						return fmt.Sprintf("%d-byte input made of %d list headers (%d length bytes) each declaring one child", len(x), len(text)/len(one), nl)
+					}))
 				}})
 			// adversarial nesting: every list declares as many children as there are bytes left
 			// (passes any "declared <= remaining" guard at every level)
